@@ -45,9 +45,13 @@ def _towards_zero_division(x: float | decimal.Decimal, y: float | decimal.Decima
         quotient = abs(x) // abs(y)
         return quotient if (x < 0) == (y < 0) else -quotient
 
-    from decimal import ROUND_DOWN, Decimal
+    from decimal import ROUND_DOWN, Context, Decimal, getcontext, localcontext
 
-    return int((Decimal(x) / Decimal(y)).quantize(0, ROUND_DOWN))
+    # Use a context of our own rather than the caller's: a lowered precision (or extra traps, or another rounding
+    # mode) set by the application must not change the result or make quantize() raise InvalidOperation.
+    # A precision which has been raised (e.g. by Duration._from_nanoseconds) is kept.
+    with localcontext(Context(prec=max(getcontext().prec, 28))):
+        return int((Decimal(x) / Decimal(y)).quantize(0, ROUND_DOWN))
 
 
 def _to_ticks(obj: datetime.datetime | datetime.timedelta) -> int:
